@@ -235,6 +235,9 @@ func (repo *BlockRepository) getHash(ctx context.Context, height int) (*bitcoin.
 	if height > repo.height {
 		return nil, errors.New("Hash height beyond tip") // We don't know the hash for that height yet
 	}
+	if height < 0 {
+		return nil, errors.New("Hash height below zero")
+	}
 
 	if repo.height-height < len(repo.lastHeaders) {
 		// This height is in the lastHeaders set
@@ -269,7 +272,7 @@ func (repo *BlockRepository) Time(ctx context.Context, height int) (uint32, erro
 
 // This function is internal and doesn't lock the mutex so it can be internally without double locking.
 func (repo *BlockRepository) getTime(ctx context.Context, height int) (uint32, error) {
-	if height > repo.height {
+	if height > repo.height || height < 0 {
 		return 0, nil // We don't know the hash for that height yet
 	}
 
@@ -309,7 +312,7 @@ func (repo *BlockRepository) Header(ctx context.Context, height int) (*wire.Bloc
 
 // This function is internal and doesn't lock the mutex so it can be internally without double locking.
 func (repo *BlockRepository) getHeader(ctx context.Context, height int) (*wire.BlockHeader, error) {
-	if height > repo.height {
+	if height > repo.height || height < 0 {
 		return nil, ErrInvalidHeight // We don't know the header for that height yet
 	}
 
@@ -344,14 +347,25 @@ func (repo *BlockRepository) Revert(ctx context.Context, height int) error {
 	if height > repo.height {
 		return errors.New(fmt.Sprintf("Revert height %d above current height %d", height, repo.height))
 	}
+	if height < 0 {
+		return errors.New(fmt.Sprintf("Revert height %d below zero", height))
+	}
 
-	// Revert heights map
+	// Collect the hashes being reverted. They are only removed from the heights map after storage
+	// has been updated so that a failure doesn't leave the map out of step with the headers.
+	revertedHashes := make([]bitcoin.Hash32, 0, repo.height-height)
 	for removeHeight := repo.height; removeHeight > height; removeHeight-- {
 		hash, err := repo.getHash(ctx, removeHeight)
 		if err != nil {
 			return errors.Wrap(err, "Failed to revert block heights map")
 		}
-		delete(repo.heights, *hash)
+		revertedHashes = append(revertedHashes, *hash)
+	}
+
+	// The latest file is only written when it fills up, when in sync, or on shutdown. Make sure
+	// storage matches the headers in memory before files are removed and truncated below.
+	if err := repo.save(ctx); err != nil {
+		return errors.Wrap(err, "Failed to save latest block file before revert")
 	}
 
 	// Height of last block of latest full file
@@ -395,6 +409,11 @@ func (repo *BlockRepository) Revert(ctx context.Context, height int) error {
 		repo.lastHeaders = append(repo.lastHeaders, header)
 	}
 	repo.height = height
+
+	// Revert heights map
+	for _, hash := range revertedHashes {
+		delete(repo.heights, hash)
+	}
 	return nil
 }
 
